@@ -283,14 +283,11 @@ def cyclic_infeasible(ctx, cls, a, width, k_eff):
        (b) Pi = multiplicity*weight and Gamma = multiplicity*slack are bounded by w_max: explained only if the non-ignored
            edges cannot be covered by k_eff walks that use no edge twice (with such a cover, zero weights and slack max f
            satisfy every bound, so infeasibility would be a new defect)."""
-    import flowpaths as fp
     G = a["G"]
-    c = G.number_of_edges() * G.number_of_nodes() * 4
-    b = scaled_copy(a, c)
-    m2 = getattr(fp, cls)(**errlib.clean_args(b)); m2.solve()
-    rep = {"class": cls, "args": errlib.describe(a), "width": width, "feasible_after_scaling_by": c if m2.is_solved() else None}
+    verdict, c = errlib.rescale_feasible(cls, a)
+    rep = {"class": cls, "args": errlib.describe(a), "width": width, "feasible_after_scaling_by": c}
     key = None
-    if m2.is_solved():
+    if verdict == "feasible":
         key = K_CAP
     else:
         el = errlib.elements_edge(a) if a.get("flow_attr_origin", "edge") == "edge" else None
@@ -299,6 +296,8 @@ def cyclic_infeasible(ctx, cls, a, width, k_eff):
             if complete and not errlib.trail_cover_exists(trails, set(el), k_eff):
                 key = K_WMAXREP
             rep["trail_cover_exists"] = None if not complete else (key is None)
+        if key is None and verdict == "inconclusive":
+            ctx.count("E2_mpe_cycles", "infeasible_diagnosis_inconclusive(time limit)"); return
     ctx.report(f"{cls} is infeasible although k={k_eff} >= covering number {width}", rep, key=key)
 
 
@@ -342,9 +341,9 @@ def run(ctx):
                 "integer type, k <= 3, compared with the exhaustive optimum; cyclic stream: kMinPathErrorCycles on <= 5-node digraphs + the figure-eight. "
                 "non-trivial = LP has more than 12 rows / graph has a cycle")
     witnesses(ctx)
-    run_dag(ctx, ctx.budget(70, 2500), tiny=False)
-    run_dag(ctx, ctx.budget(60, 2500), tiny=True)
-    run_cyclic(ctx, ctx.budget(25, 800))
+    run_dag(ctx, ctx.budget(170, 5000), tiny=False)
+    run_dag(ctx, ctx.budget(160, 5000), tiny=True)
+    run_cyclic(ctx, ctx.budget(50, 1500))
 
 
 def replay(ctx, body):
